@@ -15,7 +15,7 @@ import (
 )
 
 // adaptTimeout bounds one adaptation (the totality clause: "never a crash or hang").
-var adaptTimeout = 20 * time.Second
+var adaptTimeout = 10 * time.Second
 
 type adaptRes struct {
 	json     []byte
@@ -65,6 +65,7 @@ func guarded(f func() ([]byte, error)) adaptRes {
 		httpcaddyfile.VerifResetDirectiveOrder()
 		return r
 	case <-time.After(adaptTimeout):
+		hangDetected() // does not return when the run is supervised
 		return adaptRes{timedOut: true, dur: time.Since(t0)}
 	}
 }
